@@ -6,8 +6,30 @@
 //   curves parse         stdin: one spelling per line, hex-encoded UTF-8 bytes
 //                        (empty spelling = `-`); prints `<hex> = <Variant>|reject|panic`
 //                        obtained by executing <Curve as FromStr>::from_str
+//   curves upper-table   one line `<code point, decimal> <text>` per character >= 128 whose
+//                        char::to_uppercase() is ASCII text (obtained by executing it on every
+//                        code point): the part of str::to_uppercase that can produce an ASCII name
+//   curves ir            stdin: `<Variant> <hex path of a .circom file>` per line.  The file goes
+//                        through the tool's own front end (AnalysisRunner::with_files: parser,
+//                        desugaring, CFG, SSA, value/type propagation); printed is one JSON object:
+//                        per definition the statements of the CFG in the order the passes visit them
+//                        (cfg.iter() / basic_block.iter()), each reduced to what the three
+//                        curve-dependent passes inspect (third audit: the abstraction is DERIVED from
+//                        the tool's IR here, no longer written by the generator), and the result of
+//                        comparing Expression::eq / Hash with structural identity on every pair of
+//                        expressions the LessThan pass uses as keys.
+use program_analysis::analysis_context::AnalysisContext;
+use program_analysis::analysis_runner::AnalysisRunner;
+use program_structure::cfg::{Cfg, DefinitionType};
 use program_structure::constants::{Curve, UsefulConstants};
+use program_structure::ir::value_meta::{ValueMeta, ValueReduction};
+use program_structure::ir::*;
+use serde_json::{json, Value};
+use std::collections::hash_map::DefaultHasher;
+use std::hash::{Hash, Hasher};
+use std::path::PathBuf;
 use std::str::FromStr;
+use verif_harness::irdump;
 
 fn variant(c: &Curve) -> &'static str {
     match c {
@@ -43,6 +65,226 @@ fn parse_line(line: &str) -> String {
     format!("{} = {}", line, res)
 }
 
+// ---------------------------------------------------------------------------
+// `ir`: what the passes see of a file
+// ---------------------------------------------------------------------------
+fn vname(v: &VariableName) -> String {
+    // name | suffix | version, each explicit (Debug's `a_1.2` is ambiguous for names with `_`)
+    format!(
+        "{}|{}|{}",
+        v.name(),
+        v.suffix().as_ref().map(|s| s.to_string()).unwrap_or_default(),
+        v.version().map(|x| x.to_string()).unwrap_or_default()
+    )
+}
+
+/// Structural identity of an expression: every field except the metas, written out.  This is the
+/// reading of "syntactic equality" the model uses for the keys of the LessThan pass; the real
+/// `PartialEq` / `Hash for Expression` are compared with it pair by pair (`eq_check`).
+fn ident(e: &Expression) -> String {
+    use Expression::*;
+    fn list(es: &[Expression]) -> String {
+        es.iter().map(ident).collect::<Vec<_>>().join(" ")
+    }
+    match e {
+        Number(_, v) => format!("(n {})", v),
+        Variable { name, .. } => format!("(v {})", vname(name)),
+        InfixOp { lhe, infix_op, rhe, .. } => format!("(i {} {} {})", irdump::infix(infix_op), ident(lhe), ident(rhe)),
+        PrefixOp { prefix_op, rhe, .. } => format!("(p {} {})", irdump::prefix(prefix_op), ident(rhe)),
+        SwitchOp { cond, if_true, if_false, .. } => format!("(s {} {} {})", ident(cond), ident(if_true), ident(if_false)),
+        Call { name, args, .. } => format!("(c {} {})", name, list(args)),
+        InlineArray { values, .. } => format!("(a {})", list(values)),
+        Access { var, access, .. } => format!("(x {} {})", vname(var), access_ident(access)),
+        Update { var, access, rhe, .. } => format!("(u {} {} {})", vname(var), access_ident(access), ident(rhe)),
+        Phi { args, .. } => format!("(phi {})", args.iter().map(vname).collect::<Vec<_>>().join(" ")),
+    }
+}
+
+fn access_ident(a: &[AccessType]) -> String {
+    a.iter()
+        .map(|x| match x {
+            AccessType::ArrayAccess(e) => format!("[{}]", ident(e)),
+            AccessType::ComponentAccess(n) => format!(".{}", n),
+        })
+        .collect::<Vec<_>>()
+        .join("")
+}
+
+fn access_json(a: &[AccessType]) -> Value {
+    Value::Array(
+        a.iter()
+            .map(|x| match x {
+                AccessType::ArrayAccess(e) => json!(["i", ident(e)]),
+                AccessType::ComponentAccess(n) => json!(["f", n]),
+            })
+            .collect(),
+    )
+}
+
+fn line_of(starts: &[usize], offset: usize) -> usize {
+    match starts.binary_search(&offset) {
+        Ok(i) => i + 1,
+        Err(i) => i,
+    }
+}
+
+fn argval(e: &Expression) -> Value {
+    match e.value() {
+        Some(ValueReduction::FieldElement { value }) => json!({"v": "f", "n": value.to_string()}),
+        Some(ValueReduction::Boolean { value }) => json!({"v": "b", "b": value}),
+        None => json!({"v": "-"}),
+    }
+}
+
+fn hash_of(e: &Expression) -> u64 {
+    let mut h = DefaultHasher::new();
+    e.hash(&mut h);
+    h.finish()
+}
+
+/// Every pair of key expressions of one definition: `==` must be structural identity, and equal
+/// expressions must hash alike.
+fn eq_check<'a>(keys: &[(&'a Expression, usize)], bad: &mut Vec<Value>, pairs: &mut usize, def: &str) {
+    let ids: Vec<String> = keys.iter().map(|(e, _)| ident(e)).collect();
+    let hs: Vec<u64> = keys.iter().map(|(e, _)| hash_of(e)).collect();
+    for i in 0..keys.len() {
+        for j in i..keys.len() {
+            *pairs += 1;
+            let same = ids[i] == ids[j];
+            let eq = keys[i].0 == keys[j].0;
+            let sym = keys[j].0 == keys[i].0;
+            if (eq != same || sym != same || (same && hs[i] != hs[j])) && bad.len() < 20 {
+                bad.push(json!({"definition": def, "a": keys[i].0.to_string(), "b": keys[j].0.to_string(),
+                    "line_a": keys[i].1, "line_b": keys[j].1, "structurally_identical": same,
+                    "eq": eq, "eq_swapped": sym, "hash_equal": hs[i] == hs[j]}));
+            }
+        }
+    }
+}
+
+fn index_exprs<'a>(a: &'a [AccessType], line: usize, out: &mut Vec<(&'a Expression, usize)>) {
+    for x in a {
+        if let AccessType::ArrayAccess(e) = x {
+            out.push((e, line));
+        }
+    }
+}
+
+fn dump_cfg(cfg: &Cfg, starts: &[usize], bad: &mut Vec<Value>, pairs: &mut usize) -> Value {
+    use AssignOp::*;
+    use Expression::*;
+    use Statement::*;
+    let mut stmts = Vec::new();
+    let mut keys: Vec<(&Expression, usize)> = Vec::new();
+    for bb in cfg.iter() {
+        for stmt in bb.iter() {
+            let line = line_of(starts, stmt.meta().start());
+            match stmt {
+                Substitution { meta, var, op: AssignLocalOrComponent, rhe } => {
+                    let tk = meta.type_knowledge();
+                    let tk = if tk.is_local() {
+                        "local"
+                    } else if tk.is_signal() {
+                        "signal"
+                    } else if tk.is_component() {
+                        "component"
+                    } else {
+                        "none"
+                    };
+                    let (rhs, access): (&Expression, &[AccessType]) =
+                        if let Update { access, rhe, .. } = rhe { (rhe.as_ref(), &access[..]) } else { (rhe, &[]) };
+                    index_exprs(access, line, &mut keys);
+                    let call = if let Call { meta: cm, name, args } = rhs {
+                        json!({"name": name, "line": line_of(starts, cm.start()), "args": args.iter().map(argval).collect::<Vec<_>>(),
+                               "shown": args.iter().map(|a| a.to_string()).collect::<Vec<_>>()})
+                    } else {
+                        Value::Null
+                    };
+                    stmts.push(json!({"k": "assign", "line": line, "tk": tk, "var": vname(&var.without_version()),
+                                      "acc": access_json(access), "call": call}));
+                }
+                Substitution { var, op: AssignConstraintSignal, rhe, .. } => {
+                    let (value, access, upd): (&Expression, &[AccessType], bool) =
+                        if let Update { access, rhe, .. } = rhe { (rhe.as_ref(), &access[..], true) } else { (rhe, &[], false) };
+                    index_exprs(access, line, &mut keys);
+                    keys.push((value, line));
+                    stmts.push(json!({"k": "constrain", "line": line, "var": vname(&var.without_version()), "acc": access_json(access),
+                                      "update": upd, "value": ident(value), "shown": value.to_string(),
+                                      "value_line": line_of(starts, value.meta().start())}));
+                }
+                Substitution { op: AssignSignal, .. } => stmts.push(json!({"k": "other", "line": line, "what": "assign-signal"})),
+                _ => stmts.push(json!({"k": "other", "line": line})),
+            }
+        }
+    }
+    if keys.len() > 700 {
+        keys.truncate(700);
+    }
+    eq_check(&keys, bad, pairs, cfg.name());
+    let kind = match cfg.definition_type() {
+        DefinitionType::Function => "Function",
+        DefinitionType::Template => "Template",
+        DefinitionType::CustomTemplate => "CustomTemplate",
+    };
+    json!({"name": cfg.name(), "kind": kind, "stmts": stmts})
+}
+
+fn ir_line(line: &str) -> String {
+    let t: Vec<&str> = line.split_whitespace().collect();
+    if t.len() != 2 {
+        return json!({"error": "bad line"}).to_string();
+    }
+    let curve = match t[0] {
+        "Bn254" => Curve::Bn254,
+        "Bls12_381" => Curve::Bls12_381,
+        "Goldilocks" => Curve::Goldilocks,
+        _ => return json!({"error": "bad curve"}).to_string(),
+    };
+    let path = match unhex(t[1]) {
+        Some(p) => p,
+        None => return json!({"error": "bad path"}).to_string(),
+    };
+    let text = match std::fs::read_to_string(&path) {
+        Ok(x) => x,
+        Err(_) => return json!({"error": "unreadable file"}).to_string(),
+    };
+    let mut starts = vec![0usize];
+    for (i, b) in text.bytes().enumerate() {
+        if b == b'\n' {
+            starts.push(i + 1);
+        }
+    }
+    let res = verif_harness::guarded(|| {
+        let (mut runner, reports) = AnalysisRunner::new(curve).with_files(&[PathBuf::from(&path)]);
+        let mut defs = Vec::new();
+        let mut bad = Vec::new();
+        let mut pairs = 0usize;
+        let mut tn = runner.template_names(true);
+        tn.sort();
+        for name in tn {
+            match verif_harness::guarded(|| runner.template(&name).ok().map(|c| dump_cfg(c, &starts, &mut bad, &mut pairs))) {
+                Some(Some(d)) => defs.push(d),
+                Some(None) => defs.push(json!({"name": name, "error": "no cfg"})),
+                None => defs.push(json!({"name": name, "error": "panic"})),
+            }
+        }
+        let mut fnames = runner.function_names(true);
+        fnames.sort();
+        for name in fnames {
+            match verif_harness::guarded(|| runner.function(&name).ok().map(|c| dump_cfg(c, &starts, &mut bad, &mut pairs))) {
+                Some(Some(d)) => defs.push(d),
+                Some(None) => defs.push(json!({"name": name, "error": "no cfg"})),
+                None => defs.push(json!({"name": name, "error": "panic"})),
+            }
+        }
+        json!({"curve": t[0], "defs": defs, "parse_reports": reports.len(), "eq_pairs": pairs, "eq_bad": bad})
+    });
+    match res {
+        Some(v) => v.to_string(),
+        None => json!({"error": "panic"}).to_string(),
+    }
+}
+
 fn main() {
     verif_harness::silence_panics();
     let args: Vec<String> = std::env::args().collect();
@@ -59,8 +301,19 @@ fn main() {
             }
         }
         Some("parse") => verif_harness::each_line(parse_line),
+        Some("upper-table") => {
+            for cp in 128u32..=0x10FFFF {
+                if let Some(c) = char::from_u32(cp) {
+                    let u: String = c.to_uppercase().collect();
+                    if u.is_ascii() {
+                        println!("{} {}", cp, u);
+                    }
+                }
+            }
+        }
+        Some("ir") => verif_harness::each_line(ir_line),
         _ => {
-            eprintln!("usage: curves primes | curves parse");
+            eprintln!("usage: curves primes | curves parse | curves upper-table | curves ir");
             std::process::exit(2);
         }
     }
